@@ -37,7 +37,7 @@ def _bind_lambda(ex, lam_node, names_types):
     args = [a.arg for a in lam_node.args.args]
     out = []
     for a in args:
-        t = names_types.get(a) or ex.types.get(a)
+        t = names_types.get(a) or ex.types.get(a) or S.BOUND_TYPES.get(a)
         if t is None:
             raise OutOfSubset('bound variable %s needs a type in the contract `types`' % a)
         ty = T.parse_type(t)
@@ -225,6 +225,21 @@ def eval_call(ex, node, st, want):
             t = ex.ev(node.args[0], st, T.TREE)
             k = ex.ev(node.args[1], st, T.ATOM)
             return SV(T.TREE, tree_del(t.t, k.t))
+        if name == 'tree_rank':
+            t = ex.ev(node.args[0], st, T.TREE)
+            rank = z3.Function('tree_rank', T.TreeSort, z3.IntSort())
+            if not getattr(ctx, 'rank_axiom', False):
+                ctx.rank_axiom = True
+                ctx.assumptions_used.add('nested dicts are finite trees: tree_rank(child) < tree_rank(parent) (well-foundedness axiom)')
+            tt = z3.Const('t!rk', T.TreeSort)
+            kk = z3.Const('k!rk', T.AtomSort)
+            ax = z3.ForAll([tt, kk], z3.Implies(z3.And(T.is_TNode(tt), T.thas(tt)[kk]),
+                                                z3.And(rank(T.tkids(tt)[kk]) < rank(tt), rank(T.tkids(tt)[kk]) >= 0)),
+                           patterns=[rank(T.tkids(tt)[kk])])
+            if not any(a.eq(ax) for a in st.pc[-50:]):
+                st.pc.append(ax)
+            st.pc.append(rank(t.t) >= 0)
+            return SV(T.INT, rank(t.t))
         if name == 'leaf_none':
             return SV(T.TREE, T.TLeaf(T.VNone()))
         if name == 'list_len':
@@ -278,6 +293,53 @@ def eval_call(ex, node, st, want):
             if isinstance(x.ty, T.Opt):
                 return SV(x.ty.inner, x.ty.get(x.t))
             return x
+        if name == 'entry':
+            # value of an expression at the entry of the innermost enclosing loop
+            ent = st.ghost.get('_entry')
+            if ent is None:
+                raise OutOfSubset('entry() outside a loop invariant')
+            e2 = ent.copy()
+            for k, v in st.env.items():
+                if k not in e2.env:
+                    e2.env[k] = v          # bound variables of enclosing quantifiers
+            return ex.ev(node.args[0], e2)
+        if name == 'fresh':
+            x = ex.ev(node.args[0], st)
+            if st.old is None:
+                raise OutOfSubset('fresh() outside a postcondition')
+            old_cnt = st.old.heap.get(('$alloc', 'next'))
+            new_cnt = st.heap.get(('$alloc', 'next'))
+            if old_cnt is None or new_cnt is None:
+                raise OutOfSubset('fresh() without allocation counter')
+            return SV(T.BOOL, z3.And(x.t >= old_cnt, x.t < new_cnt))
+        if name == 'allocated':
+            x = ex.ev(node.args[0], st)
+            cnt = st.heap.get(('$alloc', 'next'))
+            if cnt is None:
+                raise OutOfSubset('allocated() without allocation counter')
+            return SV(T.BOOL, z3.And(x.t > 0, x.t < cnt))
+        if name == 'unchanged_except':
+            # unchanged_except('Class', x [, 'field', ...]): all (or the listed) fields of every other object of Class are as in old()
+            cls = node.args[0].value
+            x = ex.ev(node.args[1], st) if len(node.args) > 1 and not (isinstance(node.args[1], ast.Constant) and node.args[1].value is None) else None
+            fields = [a.value for a in node.args[2:]] or list(S.CLASSES[cls].all_fields())
+            if st.old is None:
+                raise OutOfSubset('unchanged_except() outside a postcondition')
+            r = z3.Int('r!ue%d' % next(_fresh_counter))
+            conj = []
+            for f_ in fields:
+                key, fty = ex.heap_arr(st, cls, f_)
+                now = st.heap[key]
+                if key not in st.old.heap:
+                    st.old.heap[key] = now
+                was = st.old.heap[key]
+                if now is was or now.eq(was):
+                    continue
+                body = now[r] == was[r]
+                if x is not None:
+                    body = z3.Implies(r != x.t, body)
+                conj.append(z3.ForAll([r], body, patterns=[now[r]]))
+            return SV(T.BOOL, z3.And(*conj) if conj else z3.BoolVal(True))
         if name == 'hint' and ctx.mode != 'code':
             return SV(T.BOOL, z3.BoolVal(True))
         if name in S.GHOSTS:
@@ -937,6 +999,9 @@ def call_contract(ex, node, st, want, method_of=None):
             v = ex.ev(defaults[p], st, pty)
         else:
             raise OutOfSubset('missing argument %s for %s' % (p, con.key))
+        if isinstance(pty, T.Fun) and isinstance(v.ty, T.Fun):
+            callee_env[p] = v
+            continue
         if pty is not None and v.ty != pty and not isinstance(pty, T.Fun):
             c = coerce(v, pty)
             if c is None:
@@ -1000,6 +1065,14 @@ def call_contract(ex, node, st, want, method_of=None):
             wf = fty.wf(newarr[r])
             if wf:
                 st.pc.append(z3.ForAll([r], z3.And(*wf), patterns=[newarr[r]]))
+    if con.alloc:
+        cnt_key = ('$alloc', 'next')
+        if cnt_key not in st.heap:
+            st.heap[cnt_key] = z3.Int('alloc!0')
+            st.pc.append(st.heap[cnt_key] > 0)
+        nxt = z3.Int('alloc!%d' % next(_fresh_counter))
+        st.pc.append(nxt >= st.heap[cnt_key])
+        st.heap[cnt_key] = nxt
     for m in con.mutates:
         mty = ctypes.get(m) or callee_env[m].ty
         nv = fresh_sv('mut_' + m, mty)
